@@ -30,6 +30,7 @@ func parseComplexPart
 func parseBracketContent
   props C05 C16 C20
   option safety
+  ensures a-quoted-key-is-used-verbatim-blanks-included: len(strings.TrimSpace(content)) >= 2 && ((strings.HasPrefix(strings.TrimSpace(content), "'") && strings.HasSuffix(strings.TrimSpace(content), "'")) || (strings.HasPrefix(strings.TrimSpace(content), "\"") && strings.HasSuffix(strings.TrimSpace(content), "\""))) ==> result1 == nil && result0.Type == "map_key" && result0.KeyType == "string" && result0.Key == strings.TrimSpace(content)[1:len(strings.TrimSpace(content)) - 1]
 
 func accessFieldPart
   props C05 C16 C20
